@@ -80,7 +80,7 @@ theorem C01_free_by_remover_after_barrier {ye : Nat} {scripts : List (List Cmd)}
       | cons c rest =>
         cases c with
         | read uses => simp [hsc] at hstep
-        | write st =>
+        | write st bomb =>
           simp only [hsc] at hstep
           cases hmo : s.mutexOwner <;> simp [hmo] at hstep
     | rUse slot p uses => cases uses <;> simp [hpc] at hstep
@@ -107,12 +107,12 @@ theorem C01_read_gets_current {ye : Nat} {s s' : Sys} (t v : Nat)
       | cons c rest =>
         cases c with
         | read uses => simp [hsc] at hstep
-        | write st =>
+        | write st bomb =>
           simp only [hsc] at hstep
           cases hmo : s.mutexOwner <;> simp [hmo] at hstep
     | rUse slot p uses => cases uses <;> simp [hpc] at hstep
     | rData slot uses => simp [hpc] at hstep; exact hstep.2.symm
-    | wLoad st => simp [hpc] at hstep; exact hstep.2.symm
+    | wLoad st bomb => simp [hpc] at hstep; exact hstep.2.symm
     | wHint old z0 z1 iter =>
       simp only [hpc, Option.some.injEq, Prod.mk.injEq] at hstep
       obtain ⟨_, h⟩ := hstep
@@ -140,14 +140,14 @@ theorem C01_halflock_sites :
 /-! ## Non-vacuity: a concrete interleaving in which a reader is inside its read section while a
 writer swaps, waits for it, and only then frees -/
 
-def demoScripts : List (List Cmd) := [[.read 1], [.write true]]
+def demoScripts : List (List Cmd) := [[.read 1], [.write true false]]
 def demoSchedule : List Nat := [0, 0, 0, 1, 1, 1, 1, 1, 1, 1, 1, 1, 0, 0, 1, 1, 1, 1]
 
 example : ((runSchedule 16 (Sys.init demoScripts) demoSchedule).2.map (·.2)) =
     [.load "generation" 0, .fetchAdd "lock0" 0, .load "data" 0,
-     .mutexLock, .load "data" 0, .alloc 1, .swap "data" 1 0, .load "lock0" 1, .load "lock1" 0,
+     .mutexLock false, .load "data" 0, .alloc 1, .swap "data" 1 0, .load "lock0" 1, .load "lock1" 0,
      .fetchAdd "generation" 0, .spin, .load "lock0" 1,
      .use 0, .fetchSub "lock0" 1,
-     .spin, .load "lock0" 0, .free 0, .mutexUnlock] := by decide
+     .spin, .load "lock0" 0, .free 0, .mutexUnlock false] := by decide
 
 end SigHook.HalfLock
